@@ -664,6 +664,10 @@ func genExtent(e *common.Env, g *gen) {
 			if n%7 == 0 {
 				copy(body[n/2:], "endstream") // the keyword without an EOL before it is data
 			}
+			// data that itself ends in an end-of-line (LF, CR LF, LF LF, CR)
+			if tail := []string{"", "\n", "", "\r\n", "", "\n\n", "", "\r"}[n%8]; tail != "" {
+				copy(body[n-len(tail):], tail)
+			}
 			for _, e1 := range [][]byte{{'\n'}, {'\r'}, {'\r', '\n'}} {
 				for _, d := range longDecls {
 					if d == "plus3" {
@@ -1636,7 +1640,10 @@ func hypothesesHold(body, e0, e1 []byte, decl string, after []byte) bool {
 	if !(bytes.Equal(e1, []byte("\n")) || bytes.Equal(e1, []byte("\r")) || bytes.Equal(e1, []byte("\r\n"))) {
 		return false
 	}
-	if n := len(body); n > 0 && (body[n-1] == '\n' || body[n-1] == '\r') {
+	// exactly one end-of-line marker is taken off (fix F78), so data that itself ends in an
+	// end-of-line reads back whole; only data ending in CR in front of a bare LF marker cannot
+	// be told from data + CR LF marker (Extent: no_cr_before_lf)
+	if n := len(body); n > 0 && body[n-1] == '\r' && bytes.Equal(e1, []byte("\n")) {
 		return false
 	}
 	if bytes.Contains(body, []byte("\nendstream")) || bytes.Contains(body, []byte("\rendstream")) {
